@@ -389,6 +389,7 @@ func (e *Engine) regexpPattern(g *ssa.Global) (string, bool) {
 }
 
 func init() {
+	defer func() { libModels["regexp.(*Regexp).FindStringIndex"] = libModels["regexp.(*Regexp).FindIndex"] }()
 	libModels["regexp.(*Regexp).FindIndex"] = func(fr *frame, in ssa.Instruction, c *ssa.CallCommon, args []Val, st *State, reach string) Val {
 		fc := fr.fc
 		s := tArg(args, 1)
@@ -460,4 +461,16 @@ func init() {
 	}
 	libTouches["bufio.(*Scanner).Scan"] = []string{"GV$scanRem", "GV$scanFailed"}
 	libTouches["bufio.NewScanner"] = []string{"GV$scanRem", "GV$scanFailed", "Alloc"}
+}
+
+func init() {
+	// strings.IndexFunc(s, f): -1 or an index into s. (Which index is not modelled.)
+	libModels["strings.IndexFunc"] = func(fr *frame, in ssa.Instruction, c *ssa.CallCommon, args []Val, st *State, reach string) Val {
+		fc := fr.fc
+		s := tArg(args, 0)
+		r := fc.fresh("indexfunc", SInt)
+		fc.fact(fmt.Sprintf("(and (<= (- 1) %s) (< %s (str.len %s)))", r.S, r.S, s.S))
+		fc.fact(fmt.Sprintf("(=> (= (str.len %s) 0) (= %s (- 1)))", s.S, r.S))
+		return r
+	}
 }
